@@ -100,7 +100,7 @@ fn clamp_ref(x: f64, lo: f64, hi: f64) -> f64 {
 }
 
 #[derive(Debug, Clone, PartialEq)]
-struct Model {
+pub struct Model {
     sf: usize,
     fp: usize,
     volume_db: f64,
@@ -143,6 +143,24 @@ fn compare(step: &str, got: &Model, want: &Model) -> Result<(), Failure> {
     Ok(())
 }
 
+/// A 3-stream LSP voice (GAMMA=3, LN_GAIN=1): its hidden fields (stage, log-gain flag) are not at
+/// their defaults, so a setter that disturbs them shows up.
+fn lsp_fixture() -> Result<&'static jbonsai::Engine, String> {
+    static E: std::sync::OnceLock<Result<jbonsai::Engine, String>> = std::sync::OnceLock::new();
+    E.get_or_init(|| {
+        let words = vec![0u32; 64];
+        let mut t = Tape::new(&words);
+        let mut spec = crate::voice::gen_voice(&mut t, crate::voice::GenOpts { lsp: Some(true), allow_two_streams: false, ..Default::default() });
+        spec.stage = 3;
+        spec.use_log_gain = true;
+        spec.streams[0].options = vec!["ALPHA=0.42".into(), "GAMMA=3".into(), "LN_GAIN=1".into()];
+        let tmp = crate::voice::TempVoice(crate::voice::write_temp(&spec.to_bytes(), "c20"));
+        jbonsai::Engine::load(&[&tmp.0]).map_err(|e| e.to_string())
+    })
+    .as_ref()
+    .map_err(|e| e.clone())
+}
+
 pub struct SetterHistory;
 
 impl Prop for SetterHistory {
@@ -162,7 +180,7 @@ impl Prop for SetterHistory {
     fn decode(&self, t: &mut Tape, _: Tier) -> Case {
         let n = t.below(25);
         let nstream = 3;
-        let ops = (0..n)
+        let ops: Vec<Op> = (0..n)
             .map(|_| match t.below(10) {
                 0 => Op::Alpha(special_f64(t)),
                 1 => Op::Beta(special_f64(t)),
@@ -177,26 +195,34 @@ impl Prop for SetterHistory {
             })
             .collect();
         Case {
-            voice: "bundled".into(),
+            voice: if t.chance(0.4) { "lsp-fixture".into() } else { "bundled".into() },
             ops,
         }
     }
     fn check(&self, c: &Case) -> Result<Report, Failure> {
-        let engine = match bundled_engine() {
-            Ok(e) => e,
-            Err(e) => fail!("bundled-load", "{}", e),
+        let lsp = c.voice == "lsp-fixture";
+        let engine: &jbonsai::Engine = if lsp {
+            match lsp_fixture() {
+                Ok(e) => e,
+                Err(e) => fail!("fixture-load", "{}", e),
+            }
+        } else {
+            match bundled_engine() {
+                Ok(e) => e,
+                Err(e) => fail!("bundled-load", "{}", e),
+            }
         };
         let n = engine.voices.global_metadata().num_streams;
         let mut cond = engine.condition.clone();
         let mut model = Model {
-            sf: 48000,
-            fp: 240,
+            sf: if lsp { 16000 } else { 48000 },
+            fp: if lsp { 80 } else { 240 },
             volume_db: 0.0,
             thr: vec![0.5; n],
             gvw: vec![1.0; n],
             speed: 1.0,
             align: false,
-            alpha: 0.55,
+            alpha: if lsp { 0.42 } else { 0.55 },
             beta: 0.0,
             ht: 0.0,
         };
@@ -204,7 +230,7 @@ impl Prop for SetterHistory {
         // a second, independently built Condition must agree (load_model is the only source of defaults)
         let mut fresh = Condition::default();
         if fresh.load_model(&engine.voices).is_err() {
-            fail!("load_model", "Condition::load_model failed on the bundled voice");
+            fail!("load_model", "Condition::load_model failed on a valid voice");
         }
         compare("Condition::default + load_model", &observe(&fresh, n), &model)?;
 
@@ -260,6 +286,25 @@ impl Prop for SetterHistory {
                 }
             }
             compare(&format!("after op #{} {:?}", i, op), &observe(&cond, n), &model)?;
+            // hidden fields (no getter) must not depend on the setter history either: a condition
+            // brought to the same getter values directly must render identically under Debug
+            let mut direct = engine.condition.clone();
+            direct.set_sampling_frequency(model.sf);
+            direct.set_fperiod(model.fp);
+            direct.set_volume(model.volume_db);
+            for s in 0..n {
+                direct.set_msd_threshold(s, model.thr[s]);
+                direct.set_gv_weight(s, model.gvw[s]);
+            }
+            direct.set_speed(model.speed);
+            direct.set_phoneme_alignment_flag(model.align);
+            direct.set_alpha(model.alpha);
+            direct.set_beta(model.beta);
+            direct.set_additional_half_tone(model.ht);
+            if observe(&direct, n) == observe(&cond, n) && observe(&cond, n).volume_db.to_bits() == observe(&direct, n).volume_db.to_bits() {
+                let (a, b) = (format!("{:?}", cond), format!("{:?}", direct));
+                ensure!(a == b, "hidden-state", "after op #{} {:?}: a condition with the same getter values set directly differs in its Debug rendering: {} vs {}", i, op, a, b);
+            }
         }
         // the engine the condition was cloned from is untouched
         let mut r = Report::new();
